@@ -31,6 +31,7 @@ type SVal struct {
 	Len  Term   // KSlice
 	Cap  Term   // KSlice: capacity ("" when unknown: a fresh constant >= Len is made on demand)
 	Flat []Term // KStruct: flattened leaves (Ty.Elem is the struct type)
+	Str  Term   // KSlice made by bytes(s): the code of the string whose bytes these are (no cells: strbyte(code, i))
 }
 
 func stypeOfGo(t types.Type) SType {
@@ -121,7 +122,7 @@ func (e *Env) parseType(s string) SType {
 		case "int64":
 			return SType{K: KSlice, Elem: types.Typ[types.Int64]}
 		case "byte":
-			return SType{K: KSlice, Elem: types.Typ[types.Uint8]}
+			return SType{K: KSlice, Elem: types.Universe.Lookup("byte").Type()}
 		}
 		e.fail("unknown slice type %s", s)
 	}
@@ -431,6 +432,9 @@ func (e *Env) index(x *EIndex) SVal {
 		}
 	case KSlice:
 		elem = base.Ty.Elem
+		if base.Str.S != "" {
+			return SVal{T: e.g.strByte(base.Str, i), Ty: stypeOfGo(elem)}
+		}
 	default:
 		e.fail("index of non-array in %s", exprString(x))
 	}
@@ -509,6 +513,14 @@ func (e *Env) call(x *ECall) SVal {
 			e.fail("cap of non-slice")
 		}
 		return iv(e.capOf(v))
+	case "bytes":
+		// bytes(s): the bytes of a string as a (virtual) byte slice, for len(), indexing and the segment predicates
+		need(1)
+		v := e.eval(args[0])
+		if v.Ty.K != KInt {
+			e.fail("bytes() needs a string")
+		}
+		return SVal{T: IntLit(0), Ty: SType{K: KSlice, Elem: types.Universe.Lookup("byte").Type()}, Len: e.g.strLen(v.T), Str: v.T}
 	case "base":
 		// the address of the first cell of a slice's backing array as seen through the slice
 		need(1)
@@ -559,6 +571,37 @@ func (e *Env) call(x *ECall) SVal {
 			return v, st
 		}
 		av, ast := sliceIn(args[0])
+		if av.Str.S != "" {
+			// the left-hand side is a string: quantify over the index, trigger strbyte(code, t)
+			i := e.integer(args[1])
+			var n Term
+			var rhs func(t Term) Term
+			switch x.Fn {
+			case "same":
+				bv2, bst := sliceIn(args[2])
+				j := e.integer(args[3])
+				n = e.integer(args[4])
+				if bv2.Str.S != "" {
+					rhs = func(t Term) Term { return e.g.strByte(bv2.Str, Add(j, Sub(t, i))) }
+				} else {
+					barr := e.g.arr(bst, cellKey(bv2.Ty.Elem), SInt)
+					rhs = func(t Term) Term { return Select(barr, Add(bv2.T, Add(j, Sub(t, i))), SInt) }
+				}
+			case "dseg":
+				v, j := e.integer(args[2]), e.integer(args[3])
+				n = e.integer(args[4])
+				if !e.g.declared["uf_dchar_2"] {
+					e.g.declared["uf_dchar_2"] = true
+					e.g.decls = append(e.g.decls, "(declare-fun uf_dchar_2 (Int Int) Int)")
+				}
+				rhs = func(t Term) Term { return app(SInt, "uf_dchar_2", v, Add(j, Sub(t, i))) }
+			default:
+				n = e.integer(args[2])
+				c := e.eval(args[3]).T
+				rhs = func(t Term) Term { return c }
+			}
+			return bv(e.g.strSegFact(av.Str, i, Add(i, n), rhs))
+		}
 		es, sc := scalarSort(av.Ty.Elem)
 		if !sc || e.g.L.sizeOf(av.Ty.Elem) != 1 {
 			e.fail("%s: slices of one-cell scalars only", x.Fn)
@@ -577,7 +620,11 @@ func (e *Env) call(x *ECall) SVal {
 			}
 			j := e.integer(args[3])
 			n = e.integer(args[4])
-			rhs = Select(e.g.arr(bst, key, es), Add(bv2.T, Add(j, Sub(q, lo))), es)
+			if bv2.Str.S != "" {
+				rhs = e.g.strByte(bv2.Str, Add(j, Sub(q, lo)))
+			} else {
+				rhs = Select(e.g.arr(bst, key, es), Add(bv2.T, Add(j, Sub(q, lo))), es)
+			}
 		} else if x.Fn == "dseg" {
 			v, j := e.integer(args[2]), e.integer(args[3])
 			n = e.integer(args[4])
